@@ -936,8 +936,9 @@ def _impl_roundtrip_tok(inp):
 def _gen_rt(r):
     cfg = gen_cfg(r)
     tracks = gen_piece(r, cfg, valid=r.random() < 0.8)
-    if r.random() < 0.012 and cfg[11] == 24 and not cfg[3] and not cfg[4]:
+    if r.random() < 0.012 and cfg[11] == 24:
         # a general pause of 1200 short bars between two notes (one uninterrupted rest crossing every bar line)
+        cfg = cfg[:3] + ([12, 24], [12, 24]) + cfg[5:]
         tracks = [[TS(0, 2, 8), ON(0, cfg[1], 100), WT(0, 12), OFF(0, cfg[1]), WT(0, 12 + 24 * 1200), ON(0, cfg[1], 100), WT(0, 12), OFF(0, cfg[1])]] + \
                  [[] for _ in tracks[1:]]
     if r.random() < 0.04:       # a wrong number of sequences for the configured number of tracks
